@@ -69,6 +69,14 @@ fn work_dir() -> PathBuf {
     }
 }
 
+pub fn e2_lock() -> std::fs::File {
+    let dir = work_dir();
+    let _ = std::fs::create_dir_all(&dir);
+    let f = std::fs::OpenOptions::new().create(true).write(true).truncate(false).open(dir.join(".lock")).unwrap_or_else(|e| inconclusive(&format!("E2 lock file: {e}")));
+    f.lock().unwrap_or_else(|e| inconclusive(&format!("E2 lock: {e}")));
+    f
+}
+
 fn member_of(i: usize, k: usize) -> usize {
     i % k
 }
@@ -228,6 +236,9 @@ impl Batch {
 
     /// Build to a fix-point (cases with attributable errors are stubbed out and the rest rebuilt), then run.
     pub fn build_and_run(&self) -> Outcome {
+        // the client target directory (and the member binaries in it) is shared by all batches of one repository copy:
+        // checks started next to each other take turns for their E2 phases instead of overwriting each other's binaries
+        let _guard = e2_lock();
         let start = std::time::Instant::now();
         let mut out = Outcome::default();
         let mut live: BTreeSet<String> = self.cases.keys().cloned().collect();
